@@ -110,6 +110,16 @@ inline int vo(long x) { return (int)x; }
 inline int vo(Tracked const& x) { return x.v; }
 inline int vo(Mono) { return 0; }
 
+// small class type as referent of optional<T&>: for a class type the converting assignment optional<T&>::operator=(U&&)
+// itself takes part (for a scalar it is constrained away and construction + copy assignment is used)
+struct P {
+    int v;
+    explicit P(int x = 0) : v(x) { }
+    friend auto operator==(P const& a, P const& b) -> bool = default;
+    friend auto operator<=>(P const& a, P const& b) = default;
+};
+inline int vo(P const& x) { return x.v; }
+
 template <typename T>
 T mk(int v)
 {
@@ -252,13 +262,13 @@ struct RefOpt {
     friend auto operator==(RefOpt const& a, std::nullopt_t) -> bool { return a.snap() == std::nullopt; }
     friend auto operator<=>(RefOpt const& a, std::nullopt_t) { return a.snap() <=> std::nullopt; }
     template <typename U>
-        requires std::is_arithmetic_v<U>
+        requires(std::is_arithmetic_v<U> || std::is_same_v<U, VT>)
     friend auto operator==(RefOpt const& a, U const& u) -> bool
     {
         return a.snap() == u;
     }
     template <typename U>
-        requires std::is_arithmetic_v<U>
+        requires(std::is_arithmetic_v<U> || std::is_same_v<U, VT>)
     friend auto operator<=>(RefOpt const& a, U const& u)
     {
         return a.snap() <=> u;
@@ -282,10 +292,11 @@ struct OptionalKit {
     static constexpr bool tracked = std::is_same_v<T, Tracked>;
     static json alts() { return json::array({"none", tag<T>::name}); }
 };
+template <typename R>
 struct OptRefKit {
     static constexpr Kind kind = Kind::optref;
-    using V                    = OptRefT<int>;
-    using VT                   = int;
+    using V                    = OptRefT<R>;
+    using VT                   = R;
     static constexpr bool tracked = false;
     static json alts() { return json::array({"none", "ref"}); }
 };
@@ -323,7 +334,8 @@ struct Runner {
     static constexpr bool trk   = K::tracked;
     alignas(V) unsigned char store[2][sizeof(V)];
     V* ob[2];
-    int r[2] = {1, 2}; // referents of optional<T&>
+    using RT = std::conditional_t<K::kind == Kind::optref, typename K::VT, int>;
+    RT r[2]  = {RT(1), RT(2)}; // referents of optional<T&>
     std::string inst;
     long nev = 0, nskip = 0, ndiverged = 0;
     std::set<std::string> unsupported_seen;
@@ -399,7 +411,7 @@ struct Runner {
             s["idx"] = v.has_value() ? 1 : 0;
             int k    = 0;
             if (v.has_value()) {
-                int const* p = &*v;
+                RT const* p = &*v;
                 k            = p == &r[0] ? 1 : p == &r[1] ? 2 : 3;
             }
             s["val"] = k;
@@ -419,7 +431,7 @@ struct Runner {
         json s;
         s["a"] = project(*ob[0]);
         s["b"] = project(*ob[1]);
-        s["r"] = json::array({r[0], r[1]});
+        s["r"] = json::array({vo(r[0]), vo(r[1])});
         return s;
     }
 
@@ -764,7 +776,7 @@ struct Runner {
                 ok = false;
             }
         } else if constexpr (kind == Kind::optref) {
-            static int one_ref = 1;
+            static RT one_ref(1);
             if (op == "ctor_default") {
                 v.~V();
                 new (&v) V();
@@ -782,26 +794,26 @@ struct Runner {
                 v = r[xv - 1];
             } else if (op == "emplace") {
                 v.emplace(r[xv - 1]);
-                ret.push_back(v.has_value() ? *v : 0);
+                ret.push_back(v.has_value() ? vo(*v) : 0);
             } else if (op == "deref") {
-                ret.push_back(*std::as_const(v));
+                ret.push_back(vo(*std::as_const(v)));
             } else if (op == "arrow") {
                 auto* p = std::as_const(v).operator->();
-                ret.push_back(p ? *p : NULLV);
+                ret.push_back(p ? vo(*p) : NULLV);
             } else if (op == "value") {
-                if constexpr (requires { v.value(); }) { ret.push_back(v.value()); } else { ok = false; }
+                if constexpr (requires { v.value(); }) { ret.push_back(vo(v.value())); } else { ok = false; }
             } else if (op == "write_through") {
-                *v = xv;
+                *v = RT(xv);
                 ret.push_back(xv);
             } else if (op == "value_or") {
-                int dd = xd;
-                if constexpr (requires { v.value_or(dd); }) { ret.push_back(v.value_or(dd)); } else { ok = false; }
+                RT dd(xd);
+                if constexpr (requires { v.value_or(dd); }) { ret.push_back(vo(v.value_or(dd))); } else { ok = false; }
             } else if (op == "and_then") {
                 int calls = 0, a0 = 0;
-                auto F    = [&](int& t) {
+                auto F    = [&](RT& t) {
                     ++calls;
-                    a0 = t;
-                    return t == 1 ? lib::optional<int>{} : lib::optional<int>{t + 10};
+                    a0 = vo(t);
+                    return vo(t) == 1 ? lib::optional<int>{} : lib::optional<int>{vo(t) + 10};
                 };
                 if constexpr (requires { v.and_then(F); }) {
                     auto rr = v.and_then(F);
@@ -815,33 +827,33 @@ struct Runner {
                 };
                 if constexpr (requires { v.or_else(G); }) {
                     auto rr = v.or_else(G);
-                    ret     = json::array({rr.has_value() ? 1 : 0, rr.has_value() ? *rr : 0, calls, 0});
+                    ret     = json::array({rr.has_value() ? 1 : 0, rr.has_value() ? vo(*rr) : 0, calls, 0});
                 } else { ok = false; }
             } else if (op == "transform") {
                 int calls = 0, a0 = 0;
-                auto H    = [&](int& t) {
+                auto H    = [&](RT& t) {
                     ++calls;
-                    a0 = t;
-                    return t + 5;
+                    a0 = vo(t);
+                    return vo(t) + 5;
                 };
                 if constexpr (requires { v.transform(H); }) {
                     auto rr = v.transform(H);
                     ret     = json::array({rr.has_value() ? 1 : 0, rr.has_value() ? *rr : 0, calls, a0});
                 } else { ok = false; }
             } else if (op == "cmp_value" || op == "cmp_value_r") {
-                int sv = xv;
+                RT sv(xv);
                 ret    = op == "cmp_value" ? flags6(std::as_const(v), sv, op) : flags6(sv, std::as_const(v), op);
             } else if (op == "cmp_null" || op == "cmp_null_r") {
                 ret = cmp_null(std::as_const(v), op == "cmp_null_r");
             } else if (op == "conv_ref") {
                 // optional<T const&> from a (possibly disengaged) optional<T> const&
-                using CR = OptRefT<int const>;
-                lib::optional<int> const so = xsi ? lib::optional<int>(xv) : lib::optional<int>();
+                using CR = OptRefT<RT const>;
+                lib::optional<RT> const so = xsi ? lib::optional<RT>(RT(xv)) : lib::optional<RT>();
                 if constexpr (requires { CR(so); }) {
                     CR c(so);
                     ret.push_back(c.has_value() ? 1 : 0);
                     // never read through a binding to a disengaged source (no object lives there)
-                    ret.push_back(c.has_value() && so.has_value() ? *c : 0);
+                    ret.push_back(c.has_value() && so.has_value() ? vo(*c) : 0);
                 } else { ok = false; }
             } else {
                 ok = false;
@@ -897,6 +909,52 @@ struct Runner {
                         }
                     }
                 });
+            } else if (op == "visit_het" || op == "vwi_het") {
+                // visit / visit_with_index over two variants of DIFFERENT types (different numbers of alternatives):
+                // the object and a harness-owned variant H3 / H4 in state (x.i, x.v), in both argument orders
+                auto go = [&](auto hid) {
+                    using H = typename decltype(hid)::type;
+                    with_index<lib::variant_size_v<H>>((size_t)xi, [&](auto Ic) {
+                        constexpr size_t I = decltype(Ic)::value;
+                        using A            = lib::variant_alternative_t<I, H>;
+                        H hv               = [&] {
+                            if constexpr (std::is_same_v<A, Mono>) { return H(lib::in_place_index<I>); } else { return H(lib::in_place_index<I>, arg<A>(xv)); }
+                        }();
+                        Guard g(*this);
+                        g.ext(uget<I>(hv));
+                        int a1 = -1, v1 = 0, a2 = -1, v2 = 0, n = 0;
+                        if (op == "visit_het") {
+                            auto vis = [&](auto const& p1, auto const& p2) {
+                                a1 = tag<std::remove_cvref_t<decltype(p1)>>::code;
+                                v1 = vo(p1);
+                                a2 = tag<std::remove_cvref_t<decltype(p2)>>::code;
+                                v2 = vo(p2);
+                                ++n;
+                            };
+                            if (xsi == 0) { lib::visit(vis, std::as_const(v), std::as_const(hv)); } else { lib::visit(vis, std::as_const(hv), std::as_const(v)); }
+                            ret = json::array({a1, v1, a2, v2, n});
+                        } else {
+#ifndef VH_STD
+                            auto vis = [&](auto p1, auto p2) {
+                                a1 = (int)p1.index.value;
+                                v1 = vo(p1.value());
+                                a2 = (int)p2.index.value;
+                                v2 = vo(p2.value());
+                                ++n;
+                            };
+                            if constexpr (requires { etl::visit_with_index(vis, std::as_const(v), std::as_const(hv)); }) {
+                                if (xsi == 0) { etl::visit_with_index(vis, std::as_const(v), std::as_const(hv)); }
+                                else { etl::visit_with_index(vis, std::as_const(hv), std::as_const(v)); }
+                                ret = json::array({a1, v1, a2, v2, n});
+                            } else { ok = false; }
+#else
+                            ok = false;
+#endif
+                        }
+                    });
+                };
+                if (xt == "h3") { go(std::type_identity<lib::variant<int, bool, Tracked>>{}); }
+                else { go(std::type_identity<lib::variant<int, bool, Tracked, Mono>>{}); }
             } else if (op == "visit_mv") {
                 Guard g(*this);
                 int tc = 0, x0 = 0, ct = 0, n = 0;
@@ -1205,8 +1263,8 @@ struct Runner {
             ob[i]->~V();
             ob[i] = new (store[i]) V();
         }
-        r[0] = 1;
-        r[1] = 2;
+        r[0] = RT(1);
+        r[1] = RT(2);
     }
 
     void replay(std::vector<json> const& script)
@@ -1254,7 +1312,8 @@ int main(int argc, char** argv)
     if (inst == "opt_int") { return run_one<OptionalKit<int>>(inst, script); }
     if (inst == "opt_trk") { return run_one<OptionalKit<Tracked>>(inst, script); }
     if (inst == "opt_bool") { return run_one<OptionalKit<bool>>(inst, script); }
-    if (inst == "optref") { return run_one<OptRefKit>(inst, script); }
+    if (inst == "optref") { return run_one<OptRefKit<int>>(inst, script); }
+    if (inst == "optref_p") { return run_one<OptRefKit<P>>(inst, script); }
 #endif
 #if !defined(VH_GROUP) || VH_GROUP == 2
     if (inst == "var_it") { return run_one<VariantKit<int, Tracked>>(inst, script); }
